@@ -26,7 +26,8 @@ RULE = ("(a) exactness cases: a recursive data class (Schema or DataClass base; 
         "Union[int,List['T']]; 1/4 of cases use two mutually recursive classes) with class Options(max_depth=d), d in {None,1..5}; "
         "input = chain of depth k in 1..d+3 where each level picks a link kind and a position (list index 0/1/last, dict key "
         "'k'/''/'a b', float key, tuple slot, union branch) with shallow sibling fillers; 1/4 of the chains give one nested level as JSON text "
-        "instead of a mapping; plus cyclic inputs. Oracle: accept <=> k<=d. "
+        "instead of a mapping; 15% put the chain into a list field of an outer data class (one more level) whose element rule carries Options of its "
+        "own (Rule.annotate(list, T, options=...), an Array subclass with __options__, or plain List[T]); plus cyclic inputs. Oracle: accept <=> k<=d. "
         "(b) cost curves: chain depth n=3..8 (and width 10..1000) through each link kind x class Options stage count "
         "(no flag / one flag / both flags) x leaf (exact instance / raw value needing conversion / one invalid leaf at the bottom); "
         "work = counting-converter invocations and LINE steps. Violation <=> W(n+1)/W(n) > 1.9 for every n in 3..7 (a polynomial of "
@@ -172,7 +173,9 @@ def make_case(i, rng, tier):
                 # the limit is a hard stop whatever the error-reporting mode
                 "collect": rng.random() < 0.25,
                 # one nested level written as JSON text instead of a mapping (still one level of the input)
-                "text_level": rng.randint(1, max(1, k - 1)) if (k > 1 and rng.random() < 0.25) else None}
+                "text_level": rng.randint(1, max(1, k - 1)) if (k > 1 and rng.random() < 0.25) else None,
+                # the whole chain sits in a list field of an outer data class (one more level) whose element rule carries options of its own
+                "boxed": rng.choice(["rule-with-options", "rule-with-options", "array-subclass-with-options", "plain-list"]) if rng.random() < 0.15 else None}
     j = (i - N_EXACT[tier]) % 216
     FL = [{}, {"no_data_loss": True}, {"no_explicit_cast": True}, {"no_data_loss": True, "no_explicit_cast": True}]
     LEAVES = ["exact", "raw", "bad", "int-raw", "int-bad"]
@@ -232,6 +235,24 @@ def run_case(case, ctx):
             else:
                 attach(levels[-1], case["cyc_link"], 0, levels[0], 1)
         steps = _S["steps"]
+        boxed = case.get("boxed") if (deliver == "class" and d is not None and not cyc) else None
+        if boxed:
+            import utype
+            from utype import Field, Options, Rule
+            from utype.types import Array
+            if boxed == "rule-with-options":
+                elem = Rule.annotate(list, top, options=Options(no_explicit_cast=True))
+            elif boxed == "array-subclass-with-options":
+                SA = type(Array)("SA", (Array,), {"__options__": Options(no_explicit_cast=True), "__module__": "vmon_generated"})
+                elem = SA[top]
+            else:
+                elem = typing.List[top]
+            bcls = utype.Schema if case["base"] == "Schema" else utype.DataClass
+            Box = type(bcls)("Box%d" % next(_uid), (bcls,), {"__annotations__": {"boxed": elem}, "boxed": Field(default_factory=list), "__module__": "vmon_generated",
+                                                          "__options__": Options(max_depth=d, **cflags)})
+            classes = classes + [Box]
+            top, data, k = Box, {"boxed": [data]}, k + 1
+            ctx.count("chains_inside_a_list_field_of_an_outer_class:" + boxed)
         if deliver == "override":
             from utype import Options
             out = run(lambda: top.__from__(data, options=Options(max_depth=d, override=True, **cflags)), steps=steps, limit=STEP_LIMIT if steps else None)
@@ -241,9 +262,9 @@ def run_case(case, ctx):
         ctx.count("limit_delivered_by:" + deliver)
         links = tuple(p[0] for p in path)
         poss = tuple(str(p[1]) for p in path)
-        sig = (case["base"], case["mutual"], links, poss, d, k, cyc, deliver, bool(cflags), tl)
+        sig = (case["base"], case["mutual"], links, poss, d, k, cyc, deliver, bool(cflags), tl, boxed)
         wit = {"base": case["base"], "mutual": case["mutual"], "max_depth": d, "collect_errors": bool(cflags), "limit_given_by": "class Options" if deliver == "class" else "__from__(options=Options(max_depth=d, override=True))", "input_depth": "cyclic" if cyc else k,
-               "path": [f"{l}[{p}]" for l, p in path], "outcome": repr(out), "level_given_as_json_text": tl}
+               "path": [f"{l}[{p}]" for l, p in path], "outcome": repr(out), "level_given_as_json_text": tl, "inside_outer_class_list_field": boxed}
         if out.kind == "steps" and d is not None:
             # with a limit of d levels a parse touches at most the first d levels of the input: 4e6 LINE steps are
             # three orders of magnitude above any such parse seen here (evidence: max steps of a terminating case)
